@@ -227,7 +227,7 @@ def prove_contract(c: Contract, tier="quick"):
 
 def _prove_combo(c, names, combo, tag, info):
     obs = []
-    eng = Engine(world=c.world, classes=c.classes)
+    eng = Engine(world=c.world, classes=c.classes, feas_timeout_ms=getattr(c, "feas_timeout_ms", 2000))
     eng.loop_specs = dict(c.loop_specs)
     st = State()
     args = [k.make(st, n) for n, k in zip(names, combo)]
